@@ -4,6 +4,8 @@
 //! inline, WebSocket off-reader routes); everything that comes back, and every
 //! handler invocation counter, is compared with a reference model.
 
+#[path = "c03_sat.rs"]
+mod sat;
 use crate::ctx::{Ctx, Samples, Tier};
 use crate::frames::{self, FMT_BEVE, FMT_JSON, FMT_RAW, FMT_UTF8, Frame, Hdr};
 use crate::memstream;
@@ -818,6 +820,17 @@ pub fn run(tier: Tier) -> ! {
             libc::close(saved_stderr);
         }
     }
+    // ---- requests arriving at the off-reader cap (answered by the reader itself)
+    let sat = sat::run_all(tier);
+    if let Some(m) = &sat.machinery {
+        ctx.machinery(format!("saturated block: {m}"));
+    }
+    for (k, w, case) in &sat.bad {
+        ctx.violation(k.clone(), w.clone(), case.clone());
+    }
+    if !ctx.has_violation() && (sat.rejected_calls_seen == 0 || sat.notifies_at_cap == 0) {
+        ctx.machinery("vacuous exploration: no request was ever answered at the off-reader cap");
+    }
     let mut total = Tally::default();
     let mut per_path = Vec::new();
     for (kind, t, bad) in &results {
@@ -839,8 +852,8 @@ pub fn run(tier: Tier) -> ! {
     samples.offer(|| json!({"pipeline": ["json/ok", "notify/jsonb/ok", "version/0"], "meaning": "three frames written in one burst on one connection"}));
     samples.offer(|| json!({"letter": "query/not-utf8", "request": format!("{:?}", alpha.iter().find(|l| l.name == "query/not-utf8").unwrap().frame(1000))}));
     let coverage = json!({
-        "states": pipelines.len() as u64 * kinds.len() as u64,
-        "transitions": total.requests,
+        "states": pipelines.len() as u64 * kinds.len() as u64 + sat.scenarios,
+        "transitions": total.requests + sat.rejected_calls_seen + sat.notifies_at_cap + sat.handler_runs,
         "traces_validated_against_impl": total.pipelines,
         "samples": samples.take(),
         "exhaustive": true,
@@ -849,6 +862,7 @@ pub fn run(tier: Tier) -> ! {
         "bound": {"singles": n, "ordered_pairs": n * n, "triples_over": tri.len(), "repeat_64": n, "pair_around_62_echoes": if tier == Tier::Thorough { sub.len() * sub.len() } else { 0 }},
         "dispatch_paths": per_path,
         "non_deciding_rows": ["websocket-outbound-capacity-1: same pipelines on a 4-worker runtime with a 1-slot outbound queue and a trickling peer; the schedules of the runtime workers are whatever occurs (not enumerated), so this row only adds detection (any reordering it sees is a real violation: the reader queues responses sequentially)"],
+        "requests_at_the_offreader_cap": {"scenarios": sat.scenarios, "calls_answered_by_the_reader": sat.rejected_calls_seen, "notifies_at_the_cap": sat.notifies_at_cap, "parked_handler_runs": sat.handler_runs, "rule": "caps 1, 2, 3 (thorough 16) x four blocking route kinds x {call, notify, call+notify+call} at the cap x short / 285-byte escaped path: exactly one response per call carrying its id and its query bytes, none per notify, one per released request, handler invocations = dispatched requests"},
         "nonvacuity": {"responses_by_error_code": total.by_class, "pipelines_with_2plus_responses": total.multi_inflight, "responses": total.responses, "requests": total.requests},
         "rule": "every pipeline (all letters, all ordered pairs, triples over a sub-alphabet, each letter x64, pairs around 62 echoes) is written in one burst on a fresh connection of each dispatch path (blocking TCP, async TCP, async over memstream, WebSocket with inline and off-reader routes); all frames received until the server closes are matched by id against the model; handler and middleware invocation counters are compared per pipeline",
     });
@@ -864,6 +878,14 @@ pub fn run(tier: Tier) -> ! {
 }
 
 pub fn replay(case: &Value) -> Result<(), String> {
+    if case["block"].as_str() == Some("saturated") {
+        let sc = sat::case_from_json(case).ok_or("saturated case")?;
+        let out = sat::run_scenarios(&[sc]);
+        if let Some(m) = out.machinery {
+            return Err(format!("machinery: {m}"));
+        }
+        return if out.bad.is_empty() { Ok(()) } else { Err(out.bad.into_iter().map(|(k, w, _)| format!("{k}: {w}")).collect::<Vec<_>>().join("\n")) };
+    }
     let alpha = alphabet();
     let kind = match case["path_kind"].as_str().unwrap_or("") {
         "blocking-tcp" => PathKind::BlockingTcp,
